@@ -20,7 +20,7 @@ import (
 
 type cockpitCase struct {
 	Tasks  int      `json:"tasks"`
-	Shapes []string `json:"shapes"` // per task: full (header, write, footer), nostart (footer only: skipped task), errored
+	Shapes []string `json:"shapes"`          // per task: full (header, write, footer), nostart (footer only: skipped task), errored
 	After  []string `json:"after,omitempty"` // tasks of a later command-line target: run one after another once output.Close() has been called for the first target
 }
 
